@@ -514,7 +514,12 @@ func initExterns() {
 		if w[0].K == KInt && w[0].I != 0 && e.typeKey(e.typeByID[w[0].I]) == "*bytes.Buffer" {
 			old := s.sel("bytes.Buffer#content", SStr, []*Term{w[1]})
 			txt := s.sel("template.text", SStr, []*Term{args[0][0]})
-			s.sto("bytes.Buffer#content", []*Term{w[1]}, Concat(old, App("template.render", SStr, txt, args[2][0], args[2][1])))
+			out := e.renderTemplate(s, txt, args[2])
+			s.sto("bytes.Buffer#content", []*Term{w[1]}, Concat(old, out))
+			if !(out.K == KApp && out.Name == "template.render") {
+				// every action resolved against the data: execution cannot fail
+				return Value{Zero, Zero}
+			}
 		} else {
 			e.assumed["template.Execute into an unknown writer"] = true
 		}
@@ -720,4 +725,76 @@ func (e *Engine) heapStamp(s *State, slot string) int {
 func (e *Engine) bytesContent(s *State, sl Value) *Term {
 	c := s.sel("bytesof", SStr, []*Term{sl[0]})
 	return c
+}
+
+
+var reTmplAction = regexp.MustCompile(`\{\{\s*((?:\.[A-Za-z_][A-Za-z0-9_]*)+)\s*\}\}`)
+
+// renderTemplate: templates made of literal text and {{.A}} / {{.A.B}} actions over a
+// map[string]interface{} are rendered symbolically; anything else stays opaque.
+func (e *Engine) renderTemplate(s *State, txt *Term, data Value) *Term {
+	opaque := App("template.render", SStr, txt, data[0], data[1])
+	if txt.K != KStrLit || data[0].K != KInt || data[0].I == 0 {
+		return opaque
+	}
+	dt := e.typeByID[data[0].I]
+	mt, ok := dt.Underlying().(*types.Map)
+	if !ok {
+		return opaque
+	}
+	if b, ok := mt.Key().Underlying().(*types.Basic); !ok || b.Kind() != types.String {
+		return opaque
+	}
+	src := txt.Name
+	if strings.Contains(reTmplAction.ReplaceAllString(src, ""), "{{") {
+		return opaque // other template constructs
+	}
+	var parts []*Term
+	last := 0
+	for _, m := range reTmplAction.FindAllStringSubmatchIndex(src, -1) {
+		parts = append(parts, Str(template.HTMLEscapeString("")+src[last:m[0]]))
+		last = m[1]
+		path := strings.Split(src[m[2]:m[3]][1:], ".")
+		v, has := e.mapLoad(s, mt, data[1], Value{Str(path[0])})
+		if has != True {
+			return opaque
+		}
+		cur := v
+		curT := mt.Elem()
+		okPath := true
+		for _, fld := range path[1:] {
+			// cur is an interface holding a struct value
+			if _, isIface := curT.Underlying().(*types.Interface); isIface {
+				if cur[0].K != KInt || cur[0].I == 0 {
+					okPath = false
+					break
+				}
+				curT = e.typeByID[cur[0].I]
+				cur = e.unbox(s, curT, cur[1])
+			}
+			st, isStruct := curT.Underlying().(*types.Struct)
+			if !isStruct {
+				okPath = false
+				break
+			}
+			idx := fieldIndex(st, fld)
+			if idx < 0 {
+				okPath = false
+				break
+			}
+			off, n := e.fieldRange(st, idx)
+			cur = cur[off : off+n]
+			curT = st.Field(idx).Type()
+		}
+		if !okPath {
+			return opaque
+		}
+		if _, isIface := curT.Underlying().(*types.Interface); isIface {
+			parts = append(parts, e.fmtArg(s, 'v', "", cur))
+		} else {
+			parts = append(parts, e.fmtArg(s, 'v', "", e.makeIface(s, curT, cur)))
+		}
+	}
+	parts = append(parts, Str(src[last:]))
+	return Concat(parts...)
 }
